@@ -210,6 +210,13 @@ def binance_calls(rnd):
         add((cls, "create_order"),
             (lambda a, qq=qq, acct=acct: getattr(a, acct).create_order(sym, "BUY", "MARKET", quote_order_qty=qq)),
             dec={"quoteOrderQty": qq}, omitted=["quantity", "price", "timeInForce"])
+        # extra keyword arguments of other types, as a caller forwarding its own settings passes them (unset ones included)
+        qk, sid = D(), rnd.randint(1, 10 ** 6)
+        unset = rnd.choice([None, None, True, 0])
+        add((cls, "create_order"),
+            (lambda a, qk=qk, sid=sid, unset=unset, acct=acct: getattr(a, acct).create_order(
+                sym, "SELL", "MARKET", quantity=qk, strategyId=sid, selfTradePreventionMode=unset)),
+            dec={"quantity": qk}, omitted=["price"], present={"strategyId": str(sid)})
         c2 = cid()
         add((cls, "query_order"), (lambda a, c2=c2, acct=acct: getattr(a, acct).query_order(sym, orig_client_order_id=c2)),
             present={"origClientOrderId": c2}, omitted=["orderId"])
